@@ -13,8 +13,44 @@ ALL = ['C%02d' % i for i in range(1, 21)]
 CHECKS = {}
 
 
+# parts added after the seeding rounds (DESIGN.md 7.6-7.13); appended to the description of the base enumeration
+ADDED = {
+    'C01': ' Added: slices R (returns out of nested loops), S (loop headers reading their own variable), L (names differing in capitalisation).',
+    'C02': ' Added: every whole power a^b (2<=a<=12, b<=45) exactly; random with whole-number float bounds; two jobs evaluating the same built-in '
+           'on two controlled threads, every schedule with <=1 preemption (thorough 2 for three short pairs), each job vs its solo run.',
+    'C03': ' Added: macros named like parameters/locals; returns out of nested loops; five long-run scripts (12 000 / 60 000 calls, returns, breaks, recursions in one run).',
+    'C04': ' Added: headers reading their own variable; repeat-in lists of calls and variables; mixed-case names; four pairs of jobs iterating over the '
+           'same name lists on two controlled threads (<=1 preemption).',
+    'C05': ' Added: macro definitions, group-name loops and a second routine definition in the skeleton alphabet.',
+    'C06': ' Added: (e) operator-like strings and braces round operands, (f) every control skeleton compiled and run, (g) every nesting depth 1..400 '
+           '(thorough 1..1200) of ten constructs and every literal length to 6000 by steps; rule-breakers for every re-use of a macro and incomplete headers.',
+    'C07': ' Added: round trips after earlier commands; out-of-range rgb next to zeros; pairs of jobs sending different colours through the same '
+           'command path on two controlled threads (<=1 preemption; thorough one pair at 2).',
+    'C08': ' Added: harnesses entering through controller/ls_module.queue_script (module re-imported per execution) and clients that only clear the queue; '
+           'exclusion judged from the instant a job thread is started; bytecode-granularity points (sys.monitoring).',
+    'C09': ' Added: bound-2 windows armed at the clock\'s first tick (quick) and at the first instruction (thorough); bytecode-granularity tasks; '
+           'no instruction may begin after a stop issued during a wait that cannot end by itself.',
+    'C10': ' Added: re-run of the same job, sub-millisecond delays, hour-boundary offsets, a time of day that has already arrived with the script behind schedule.',
+    'C11': ' Added (quick too): every ordered triple and quadruple over nine patterns sharing hour/minute texts.',
+    'C12': ' Added: get from a silent light in every unit mode; two-command scripts (stale matrix canvas); a script next to the discovery/refresh thread '
+           'on controlled threads (<=1 preemption), script commands vs solo run.',
+    'C13': ' Added: the same BFS with every getter called after every event; fractional ages; the VM\'s DISC/DNEXT/DISCM/DNEXTM over a directory changed '
+           'after the k-th step, every k/walk/direction/change; sorted lists built from an iterable, mixed-case alphabet.',
+    'C14': ' Added: start states after a switch followed by an assignment of every syntactic kind, switches inside called routines, fractional kelvins, time of day pending.',
+    'C15': ' Added: and-lists of mixed operands; units switches, commands for other lights and float bounds inside blocks; blocks inside routines.',
+    'C16': ' Added: braces round expression operands and repeat-in list elements; calls with calls among their arguments; single-call routine bodies; '
+           'a comment attached to the preceding token as a gap alternative.',
+    'C17': ' Added: 29 texts (name-leak probes, built-in names as variables, failing definitions inside loops); re-run family with macros; one ScriptJob compiling A then B; '
+           'eight pairs of jobs on two controlled threads (<=1 preemption; thorough two short pairs at 2).',
+    'C18': ' Added: shared-colour populations; every Latin-1 character incl. control characters and splitlines separators; the web Capture handler pressed twice.',
+    'C19': ' Added: values that are calls in every position; variables named like registers; a job after a failed job.',
+    'C20': ' Added: drain scenarios up to 40 queued requests; liveness of the (fake) job threads as ground truth for "running"; the shipped web/manifest.json '
+           '(every button, Capture -> Retrieve); stop-current/stop-all must answer without raising.',
+}
+
+
 def check(pid, technique, text, note, ref):
-    CHECKS[pid] = (technique, text, note, ref)
+    CHECKS[pid] = (technique, text + ADDED.get(pid, ''), note, ref)
 
 
 check('C11',
